@@ -594,6 +594,8 @@ def _value_prov(r, v, seen=None, depth=0):
 
 
 def _separated(kk):
+    if isinstance(kk, tuple) and kk and kk[0] == "tuple":
+        return all(_separated(x) for x in kk[1:])      # tuples are injective in their components
     if not (isinstance(kk, tuple) and kk and kk[0] == "fstr"):
         return isinstance(kk, tuple) and kk and kk[0] in ("param", "const")
     prev_var = False
